@@ -2913,6 +2913,27 @@ func (c *ttCaseGen) addOverlap(ts ...*ttGenTool) {
 	}
 }
 
+// input schemas Server.AddTool refuses: the root type is not (the single string) "object"
+var ttNonObjectInputSchemas = []string{`{"type":"array"}`, `{"type":"string"}`, `{}`, `{"type":["object","null"]}`,
+	`{"type":"integer"}`, `{"properties":{"name":{"type":"string"}}}`}
+
+// addRefused emits a registration that AddTool must refuse (toolForErr succeeds — the SchemaCache may be
+// written —, Server.AddTool panics): a declared input schema whose root type is not "object", under the
+// given name (a new one, or the name of a registered tool, which must stay as it is).
+func (c *ttCaseGen) addRefused(name string, reg *ttReg) {
+	v, _ := ttParse([]byte(c.g.pick(ttNonObjectInputSchemas...)))
+	var osch any
+	if c.g.coin(0.3) && ttDescribe(reg.out).K != "any" {
+		osch = ttDerive(reg.out)
+	}
+	// no pointer handed over earlier is re-used here (it would bring its own, object-rooted schema along), and
+	// the pointers of a refused registration are not offered to later registrations
+	keep := c.ptrs
+	c.ptrs = nil
+	c.emitTool(name, reg, v, osch)
+	c.ptrs = keep
+}
+
 // session draws the protocol version and the kind of peer of a server of the case: the SDK client left
 // alone (its default version) or told to run at one of the SDK's supported versions, or a foreign peer
 // speaking raw JSON-RPC at one of them.
@@ -2994,7 +3015,14 @@ func ttMatrixCase(r *rand.Rand, ver, peer string) []string {
 			continue
 		}
 		n++
-		calls(c.emitTool(fmt.Sprintf("t%d", n), reg, nil, nil)) // both sides derived
+		first := c.emitTool(fmt.Sprintf("t%d", n), reg, nil, nil) // both sides derived
+		calls(first)
+		if n == 1 {
+			// a refused registration under the name of the tool just registered; the tool stays what it was
+			c.addRefused(first.name, ttRegByName("B/A"))
+			c.addCall(first)
+			c.addRefused("r0", reg)
+		}
 		n++
 		calls(c.addTool(fmt.Sprintf("t%d", n), reg, 0.5, 1)) // a declared output schema
 	}
@@ -3079,6 +3107,17 @@ func ttGenCase(r *rand.Rand, nCalls int) []string {
 						cur = append(cur[:j], cur[j+1:]...)
 						break
 					}
+				}
+			}
+			if g.coin(0.08) {
+				// a refused registration first: under a new name, or under the name of a tool of this server,
+				// which is then called (it must be the tool it was)
+				if len(cur) > 0 && g.coin(0.6) {
+					old := cur[g.r.Intn(len(cur))]
+					c.addRefused(old.name, reg)
+					c.addCall(old)
+				} else {
+					c.addRefused(fmt.Sprintf("r%d", n), reg)
 				}
 			}
 			t := c.addTool(name, reg, 0.5, 0.5)
